@@ -20,9 +20,11 @@ pub struct C20;
 thread_local! {
     /// alternates between rebuilds: decides the allocation order of the cells in the pointer-order part of tetris->raw
     static REBUILD_PARITY: std::cell::Cell<bool> = std::cell::Cell::new(false);
+    /// scratch file of this worker for conversions that start from a file (set by `check`; a fresh process uses its pid)
+    static SCRATCH: std::cell::RefCell<Option<String>> = std::cell::RefCell::new(None);
 }
 
-pub const CONVS: [&str; 11] = ["raw->gds", "raw->proto", "raw->lef", "lef->raw->lef", "proto->raw->proto", "gds->raw", "raw->gds->raw", "tetris->raw", "gds->raw:error", "raw->proto:error", "tetris->raw:error"];
+pub const CONVS: [&str; 12] = ["raw->gds", "raw->proto", "raw->lef", "lef->raw->lef", "proto->raw->proto", "gds->raw", "raw->gds->raw", "tetris->raw", "gds->raw:error", "raw->proto:error", "tetris->raw:error", "lef-text->raw->lef"];
 
 #[derive(Clone, Debug)]
 pub struct Case {
@@ -611,6 +613,52 @@ pub fn convert_once(case: &Case) -> Result<(Vec<(String, Vec<i16>)>, String), St
             };
             Ok((vec![], format!("{a}\n{b}")))
         }
+        11 => {
+            // LEF *text* -> lef21 -> raw -> lef21: the text optionally states no VERSION / 5.8 / 5.4, optionally ends
+            // without END LIBRARY (legal from 5.6 on) or carries statements that only versions <= 5.4 allow. Whatever
+            // the reader answers for a text (a library or an error) is the result, and is the same every time.
+            let mut text = String::new();
+            match case.port_layers {
+                2 => text.push_str("VERSION 5.8 ;\n"),
+                1 => text.push_str("VERSION 5.4 ;\n"),
+                _ => {}
+            }
+            if case.block_layers == 0 {
+                text.push_str("NAMESCASESENSITIVE ON ;\n");
+            }
+            text.push_str("UNITS DATABASE MICRONS 2000 ; END UNITS\n");
+            let nm = if case.two_cells { 2 } else { 1 };
+            for m in 0..nm {
+                text.push_str(&format!("MACRO cell{m}\n CLASS BLOCK ;\n"));
+                if case.two_ports {
+                    text.push_str(" SOURCE USER ;\n");
+                }
+                text.push_str(" SIZE 2.0 BY 3.0 ;\n PIN a\n  DIRECTION INPUT ;\n  PORT\n   LAYER met1 ;\n    RECT 0.1 0.1 0.5 0.5 ;\n   LAYER met2 ;\n    RECT 0.2 0.2 0.6 0.6 ;\n  END\n END a\n");
+                if case.two_shapes {
+                    text.push_str(" OBS\n  LAYER met1 ;\n   RECT 1.0 1.0 1.5 1.5 ;\n END\n");
+                }
+                text.push_str(&format!("END cell{m}\n"));
+            }
+            if case.block_layers != 2 {
+                text.push_str("END LIBRARY\n");
+            }
+            let path = SCRATCH.with(|s| s.borrow().clone()).unwrap_or_else(|| format!("/dev/shm/l21mc-c20-{}.lef", std::process::id()));
+            std::fs::write(&path, text.as_bytes()).map_err(|x| format!("MACHINERY: scratch file {path}: {x}"))?;
+            let parsed = lef21::LefLibrary::open(&path);
+            let _ = std::fs::remove_file(&path);
+            let l0 = match parsed {
+                Ok(l) => l,
+                Err(x) => return Ok((vec![], format!("read Err: {x}"))),
+            };
+            let lib = match raw::lef::LefImporter::import(&l0, None) {
+                Ok(l) => l,
+                Err(x) => return Ok((vec![], format!("import Err: {x:?} / {x}"))),
+            };
+            match raw::lef::LefExporter::export(&lib) {
+                Ok(l) => Ok((vec![], format!("{}\n{}", dump_raw(&lib), serde_json::to_string(&l).map_err(|x| x.to_string())?))),
+                Err(x) => Ok((vec![], format!("{}\nexport Err: {x:?} / {x}", dump_raw(&lib)))),
+            }
+        }
         _ => {
             // raw -> gds -> raw
             let lib0 = build_raw(case);
@@ -651,7 +699,7 @@ impl CaseDriver for C20 {
     }
     fn describe(&self, _tier: Tier) -> Describe {
         Describe {
-            rule: "inputs: raw libraries with 1-2 abstract cells whose 1-2 ports carry shapes on 1-3 layers and whose blockages sit on 0/2/3 layers (unordered maps with 1-3 keys, every insertion order), 1-2 shapes per layer, plus a layout cell with elements on 3 layers x 2 purposes, an annotation and a reflected+rotated instance; LEF / protobuf / GDSII inputs derived from them in a fixed order. Conversions: raw->GDSII (bytes, dates pinned), raw->protobuf (prost bytes), raw->LEF (serde_json), LEF->raw->LEF, protobuf->raw->protobuf, GDSII->raw, raw->GDSII->raw, gridded layout->raw (raw results as an order-preserving dump; the gridded cell optionally holds two instances abutting along the tracks), and two conversions whose result is an error - GDSII->raw on struct rings of 2..4 closed by SREF / AREF (optionally a second ring, either listing order) raw->protobuf on cell rings, raw->GDSII / raw->protobuf of an element whose layer does not define its purpose, raw->protobuf of an unnamed instance rotated by 22.5 degrees, LEF->raw->LEF with a supplied layer that has no name of its own and is indexed under 2..3 names the LEF uses, and gridded layout->raw of a cut lying under an instance / of two overlapping cuts - where the rendered error is the compared output. Configurations: every input is rebuilt / re-imported with fresh HashMaps until each of the k! iteration orders of every map the exporter walks has been observed on the very map objects (minimum 32, cap 4096 rebuilds; coverage measured and reported as tags), plus fresh OS processes, plus the same input once more after each of three *other* inputs went through the same conversion in the same process (no state carried from one library to the next); conversions that expose no map (GDSII->raw) are repeated 32 times - unordered containers internal to a converter cannot be enumerated, only exercised. Two of the three layers may share a layer number, and then the other layers also define each purpose under two numbers. A state is (input, conversion); non-trivial = some map has >= 2 keys.".into(),
+            rule: "inputs: raw libraries with 1-2 abstract cells whose 1-2 ports carry shapes on 1-3 layers and whose blockages sit on 0/2/3 layers (unordered maps with 1-3 keys, every insertion order), 1-2 shapes per layer, plus a layout cell with elements on 3 layers x 2 purposes, an annotation and a reflected+rotated instance; LEF / protobuf / GDSII inputs derived from them in a fixed order. Conversions: raw->GDSII (bytes, dates pinned), raw->protobuf (prost bytes), raw->LEF (serde_json), LEF->raw->LEF, protobuf->raw->protobuf, GDSII->raw, raw->GDSII->raw, LEF text (no VERSION / 5.8 / 5.4, with or without END LIBRARY, with or without statements only versions <= 5.4 allow; a reader error is a result like any other)->raw->LEF, gridded layout->raw (raw results as an order-preserving dump; the gridded cell optionally holds two instances abutting along the tracks), and two conversions whose result is an error - GDSII->raw on struct rings of 2..4 closed by SREF / AREF (optionally a second ring, either listing order) raw->protobuf on cell rings, raw->GDSII / raw->protobuf of an element whose layer does not define its purpose, raw->protobuf of an unnamed instance rotated by 22.5 degrees, LEF->raw->LEF with a supplied layer that has no name of its own and is indexed under 2..3 names the LEF uses, and gridded layout->raw of a cut lying under an instance / of two overlapping cuts - where the rendered error is the compared output. Configurations: every input is rebuilt / re-imported with fresh HashMaps until each of the k! iteration orders of every map the exporter walks has been observed on the very map objects (minimum 32, cap 4096 rebuilds; coverage measured and reported as tags), plus fresh OS processes, plus the same input once more after each of three *other* inputs went through the same conversion in the same process (no state carried from one library to the next); conversions that expose no map (GDSII->raw) are repeated 32 times - unordered containers internal to a converter cannot be enumerated, only exercised. Two of the three layers may share a layer number, and then the other layers also define each purpose under two numbers. A state is (input, conversion); non-trivial = some map has >= 2 keys.".into(),
             assumptions: vec!["an unordered map in the raw data model itself is rendered sorted (a map has no order); every ordered container must keep its order".into()],
             excluded: vec!["gridded layout -> raw is exercised on three stacks x a few cells only (the C08 alphabet is not re-enumerated here)".into()],
             technique: "exhaustive enumeration of hash-map iteration orders (observed on the real map objects) x inputs x conversions; outputs compared byte-for-byte within and across processes".into(),
@@ -675,6 +723,7 @@ impl CaseDriver for C20 {
         let nontrivial = case.port_layers >= 2 || case.block_layers >= 2;
         cx.state(hash_debug(case), nontrivial);
         cx.tag(CONVS[case.conv]);
+        SCRATCH.with(|s| *s.borrow_mut() = Some(cx.scratch_file("c20.lef")));
         let cap = 4096usize;
         let mut first: Option<String> = None;
         let mut seen: BTreeMap<String, BTreeSet<Vec<i16>>> = BTreeMap::new();
